@@ -12,7 +12,9 @@ reachable.
 Mirrors: container/at_optional.hpp, maybe_front.hpp, maybe_back.hpp, pop_back.hpp,
 pop_front.hpp, find_opt(_iterator).hpp, array/from_range.hpp, detail/runtime_index.hpp,
 enum/index_of_array.hpp (+ from_string_impl.hpp), options/impl/is_flag.cpp,
-options/impl/next_arg.cpp, io/read_chars.cpp (its buffer logic), filesystem/file_size.cpp.
+options/impl/next_arg.cpp, filesystem/file_size.cpp.  Sub-modules: `C01/Stream.lean` (io helpers on streams in
+every state, read_chars with its buffer), `C01/Path.lean` (the pure path helpers over a model of
+std::filesystem::path), `C01/Env.lean` (argc/argv, getenv, error codes, open, casts, time).
 -/
 namespace Fcppt.C01
 open Fcppt
@@ -121,10 +123,10 @@ def nextArgFrom (args : List Str) (optionNames : List (Str × Bool)) : Nat → N
 def nextArg (args : List Str) (optionNames : List (Str × Bool)) : M (Option Nat) :=
   nextArgFrom args optionNames (args.length + 1) 0
 
-/-- io::read_chars: `read(data, count).good() ? some gcount : none`, the bytes handed over are the
-read area of the buffer.  The stream is its remaining content; `good()` after `read` iff `count`
-characters were available. -/
-def readChars (stream : List Nat) (count : Nat) : Option (List Nat) :=
+/-- what io::read_chars means on a stream in the good state that reports end-of-file: the requested prefix or
+nothing.  The model that mirrors the code (buffer, stream states, throwing streambuf) is `readChars` in
+`Model/C01/Stream.lean`. -/
+def readCharsSpec (stream : List Nat) (count : Nat) : Option (List Nat) :=
   if count ≤ stream.length then some (stream.take count) else none
 
 /-- filesystem::file_size with the OS answer as an oracle argument (`none` = error_code set) -/
